@@ -6,7 +6,7 @@ use crate::gen;
 use crate::gen::text;
 use crate::refmodel::ast::TypeKind;
 use crate::refmodel::printer::print_document;
-use crate::refmodel::schema::RefSchema;
+use crate::refmodel::schema::{RefSchema, BUILTIN_SCALARS};
 use crate::runner::{Ctx, Outcome, Prop, Tier};
 use apollo_compiler::coordinate::{
     DirectiveArgumentCoordinate, DirectiveCoordinate, FieldArgumentCoordinate, SchemaCoordinate, SchemaCoordinateLookup, SchemaLookupError,
@@ -75,6 +75,7 @@ pub fn prop() -> Prop {
         "meta-fields (`__typename`, `__schema`, `__type`) are not schema elements and are never looked up",
         "lookup errors are only required to be errors; which SchemaLookupError variant is returned is recorded as a class, not asserted",
         "a generated schema that apollo rejects is skipped here (schema validity is C14's property)",
+        "the built-in scalars Int/Float/String/Boolean/ID are not looked up: schema/validation.rs documents that a Valid<Schema> drops the unused ones",
     ])
 }
 
@@ -592,8 +593,14 @@ pub fn check_lookup(bytes: &[u8], ctx: &mut Ctx) -> Outcome {
     }
     attrs.insert("nope9".into());
     args.insert("nope9".into());
-    let mut type_names: Vec<String> =
-        rs.types.iter().filter(|t| with_builtin_types || !rs.is_builtin_type(&t.name) || ["Int", "String"].contains(&t.name.as_str())).map(|t| t.name.clone()).collect();
+    // The five built-in scalars are left out: a `Valid<Schema>` documents that it drops the ones no
+    // field / argument / input field refers to, so whether `Int` resolves depends on usage.
+    let mut type_names: Vec<String> = rs
+        .types
+        .iter()
+        .filter(|t| !BUILTIN_SCALARS.contains(&t.name.as_str()) && (with_builtin_types || !rs.is_builtin_type(&t.name)))
+        .map(|t| t.name.clone())
+        .collect();
     type_names.push("Nope9".into());
     let mut dir_names: Vec<String> = rs.directives.keys().cloned().collect();
     dir_names.push("nope9".into());
